@@ -24,7 +24,7 @@ Two defects were repaired (`fix:` commits); the model mirrors the repaired code 
 old behaviour for the two witnesses at the end.
 -/
 namespace Varpulis.Props.C38
-open Varpulis.RaftSync
+open Varpulis.RaftSync Varpulis.RaftSync.Witness
 
 /-- the judges used on the implementation's dumped states decide exactly `CompSync` and `NoRevert` -/
 theorem judge_sound (c : Comp) (l l' : LState) (r : RState) :
@@ -77,11 +77,6 @@ theorem known_cells :
 
 /-! ### the full statement is false: one witness per known finding (call site), with the revert -/
 
-def w1 : Op := .register "w1" "a1" 4 0 10 0
-def w2 : Op := .register "w2" "a2" 4 0 10 0
-def deployP : Op := .deploy "g" "grp" [⟨"p", "w1", true, "id1"⟩]
-def toW2 : Mig := ⟨"g", "p", "w2", true, "id2"⟩
-
 /-- C38-worker-bookkeeping-not-replicated (`handle_deploy_group`): the deployment is proposed
 (`GroupDeployed`) but not the worker's assigned pipelines / running count; the next `sync_from_raft`
 resets them -/
@@ -120,7 +115,9 @@ theorem drain_counterexample :
 
 /-- C38-failover-not-replicated (health loop): a worker times out, the sweep marks it (that is proposed),
 its pipeline is moved to another worker — and the next tick's `sync_from_raft` moves it back in the
-coordinator's view, onto the dead worker -/
+coordinator's view, onto the dead worker. (The phases sweep → failover are taken on their own here: in the
+shipped loop a `sync_from_raft` always precedes the sweep and masks the time-out, see
+`sync_masks_heartbeat_timeouts` below, so this call site is latent.) -/
 theorem failover_counterexample :
     let s0 := run {} [w1, w2, deployP, .heartbeat "w2" 0 0 15000, .tickSweep 20000]
     let s := step s0 (.tickFailover "w1" [toW2])
